@@ -109,6 +109,8 @@ TTLB = "; resident and new entries with or without TTL (creation instants within
 H("C04", "c04_em_store_insert", "store", STF, SB + TTLB, timeout=3600, cover_tags=["insert"], tier="thorough", mem_gb=28)
 H("C04", "c04_em_store_update", "store", STF, SB + TTLB, timeout=3600, cover_tags=["update"], tier="thorough", mem_gb=28)
 H("C04", "c04_em_store_remove", "store", STF, SB + TTLB, timeout=3600, cover_tags=["remove"], tier="thorough", mem_gb=28)
+H("C04", "c04_store_update_ttl", "store", STF, SB + TTLB + "; addressed entry may be expired but not yet swept; expiry index not built", timeout=1200, cover_tags=["update"], cover_optional=["update vetoed"])
+H("C04", "c04_store_insert_ttl", "store", STF, SB + TTLB + "; addressed entry may be expired but not yet swept; expiry index not built", timeout=1200, cover_tags=["insert"])
 for op in ["insert", "update", "remove"]:
     H("C04", "c04_em_step_" + op, "ttl", ["ExpirationMap::try_" + op], EMB, timeout=1200, cover_tags=[op], alias_of="c05_em_step_" + op)
 H("C03", "c03_store_lookup_ttl", "store", STF, SB + TTLB + "; lookup at now", timeout=1200, cover_tags=["lookup"])
@@ -182,6 +184,9 @@ for op in ("lookup", "insert", "remove"):
 P("C20", CACHE_ASS + [RNG, "std::thread::spawn is stubbed by panic!() in c20_finalize_rejects_zero (the three validation errors return before any thread is spawned; what finalize does after validation is outside)"])
 for tag in ("n0", "mc0", "bs0"):
     H("C20", "c20_finalize_rejects_" + tag, "cache::sync", ["CacheBuilder::finalize", "CacheBuilder::new_with_key_builder", "CacheBuilderCore::set_buffer_size", "CacheBuilderCore::set_hasher"], "one of num_counters / max_cost / buffer size is a concrete zero (so that validation returns before the construction code), the other two arbitrary", timeout=900, cover_tags=[tag])
+BSET = ["CacheBuilderCore::set_num_counters", "set_max_cost", "set_buffer_items", "set_buffer_size", "set_metrics", "set_ignore_internal_cost", "set_cleanup_duration", "set_key_builder", "set_coster", "set_update_validator", "set_callback", "set_hasher"]
+H("C20", "c20_builder_core_setters", "cache::builder", BSET, "one setter call (any of the 12, arbitrary argument) from an arbitrary builder state: all scalar parameters arbitrary (full width), the four optional components present; instantiated for u64 keys/values", timeout=600)
+H("C20", "c20_builder_wrapper_setters", "cache::sync", ["CacheBuilder::" + x.split("::")[-1] for x in BSET], "one setter call of the public (sync) CacheBuilder from an arbitrary builder state; AsyncCacheBuilder is the same macro text (impl_builder!) and is not instantiated", timeout=600)
 H("C20", "c20_closed_is_inert", "cache::sync", ["Cache::get", "Cache::get_mut", "Cache::try_remove", "Cache::clear", "Cache::wait", "Cache::close"], "arbitrary quiescent state with <= 2 residents, closed flag set, arbitrary key", timeout=1800)
 H("C20", "c20_sketch_new_widths", "sketch", ["CountMinSketch::new", "CountMinSketch::increment", "CountMinSketch::estimate"], "num_counters symbolic in [1, 65536] (includes 1..70, powers of two or not)", timeout=900, alias_of="c13_sketch_new_widths")
 # ---- C10
